@@ -174,12 +174,27 @@ GuardClose == << Line("endif", "IsPreprocessorStatement", <<L("#endif", 6)>>) >>
 (* same column (as in the Norm's example) or after a single tab                                                *)
 FieldLine(t, wMax, st, w, i) ==
     Line("field", "IsVarDeclaration", <<TAB1, TyItem(t)>> \o AlignTabs(wMax, Types[t].w) \o Stars(st) \o <<Slot("fld", w, i), L(";", 1)>>)
+(* an anonymous union nested among the fields: its members are indented one more level, its closing brace carries *)
+(* the member name (possibly a pointer declarator) on the alignment column of the enclosing fields              *)
+NestedUnion(wMax, ptr) ==
+    << Line("utype", "IsUserDefinedType", <<TAB1, L("union", 5)>>),
+       Line("lbrace", "IsBlockStart", <<TAB1, L("{", 1)>>),
+       Line("field", "IsVarDeclaration", <<TAB1, TAB1, L("int", 3), TAB1, TAB1, Slot("fld", 1, 71), L(";", 1)>>),
+       Line("field", "IsVarDeclaration", <<TAB1, TAB1, L("char", 4), TAB1, L("*", 1), Slot("fld", 3, 72), L(";", 1)>>),
+       (* LeakedSub: with a pointer declarator IsBlockEnd gives up after having set the pending scope; the statement *)
+       (* is then claimed by IsDeclaration, which applies that pending scope -- the engine reports IsDeclaration      *)
+       Line("rbrace", IF ptr THEN "IsDeclaration" ELSE "IsBlockEnd",
+            <<TAB1, L("}", 1)>> \o AlignTabs(wMax, 1) \o (IF ptr THEN <<L("*", 1)>> ELSE <<>>) \o <<Slot("utag", 5, 73), L(";", 1)>>) >>
+    (* the member is spelled u_xxx: the tool applies the union naming rule to the declarator of an anonymous union *)
 StructBlock(kw, tagcls, b, n, ts, sts, ws, alignName) ==
     LET wd == [i \in 1..n |-> Types[ts[i]].w]
         wMax == MaxOf(wd, n)
+        nest == Sim /\ kw = "typedef struct " /\ n >= 2 /\ ws[1] = 1        \* a third of the structs with >= 2 fields
     IN << Line("utype", "IsUserDefinedType", <<L(kw, IF kw = "typedef struct " THEN 15 ELSE 14), Slot(tagcls, 6, b)>>),
           Line("lbrace", "IsBlockStart", <<L("{", 1)>>) >>
-       \o [i \in 1..n |-> FieldLine(ts[i], wMax, sts[i], ws[i], i)]
+       \o <<FieldLine(ts[1], wMax, sts[1], ws[1], 1)>>
+       \o (IF nest THEN NestedUnion(wMax, sts[1] > 0) ELSE <<>>)
+       \o [i \in 1..(n - 1) |-> FieldLine(ts[i + 1], wMax, sts[i + 1], ws[i + 1], i + 1)]
        \o << Line("rbrace", "IsBlockEnd",
                   <<L("}", 1)>> \o (IF alignName THEN Tabs(StopOf(wMax) + 2) ELSE <<TAB1>>) \o <<Slot("tname", 6, b), L(";", 1)>>) >>
 EnumBlock(b, n, vals) ==
@@ -270,6 +285,9 @@ SimpleStmts ==
     {[st |-> "IsAssignation", items |-> lv \o <<op>> \o e \o <<L(";", 1)>>] : lv \in Pick(LValues), op \in Pick(AssignOps), e \in ExprChoice}
     \cup {[st |-> "IsAssignation", items |-> lv \o <<o, L(";", 1)>>] : lv \in Pick(LValues), o \in {L("++", 2), L("--", 2)}}
     \cup {[st |-> "IsFunctionCall", items |-> c \o <<L(";", 1)>>] : c \in Pick(CallTable)}
+    \cup {[st |-> "IsAssignation", items |-> <<V3, L("[", 1)>> \o e \o <<L("]", 1)>> \o <<op>> \o e2 \o <<L(";", 1)>>]
+              : op \in Pick(AssignOps), e \in ExprChoice, e2 \in ExprChoice}
+    \cup {[st |-> "IsFunctionCall", items |-> <<F4, L("(", 1), V1, L(", ", 2)>> \o e \o <<L(");", 2)>>] : e \in ExprChoice}
     \cup {[st |-> "IsExpressionStatement", items |-> <<L("return (", 8)>> \o e \o <<L(");", 2)>>] : e \in ExprChoice}
     \cup {[st |-> "IsExpressionStatement", items |-> <<L("return ;", 8)>>]}
     \cup {[st |-> "IsExpressionStatement", items |-> <<L("(void)", 6), V3, L(";", 1)>>]}
